@@ -73,7 +73,12 @@ func (e *Engine) intrinsic(st *State, f *Frame, fn *ssa.Function, args []Value, 
 	case "(*sync.Mutex).Lock", "(*sync.RWMutex).Lock", "(*sync.RWMutex).RLock":
 		p := args[0].(*PtrVal)
 		k := e.lockKey(st, p)
+		e.parYield(st, "Lock")
 		if st.locks[k] > 0 {
+			if st.par != nil && st.lockOwner[k] != st.par.cur+1 {
+				// held by the other thread: wait for it
+				return e.blocked(st, "mutex held by the other goroutine", ins), true
+			}
 			nm := e.lockName(st, p)
 			if st.open != nil {
 				e.openObligation(st, "self-deadlock:"+nm, "Lock of a mutex already held by this goroutine ("+nm+")", site(ins))
@@ -83,6 +88,10 @@ func (e *Engine) intrinsic(st *State, f *Frame, fn *ssa.Function, args []Value, 
 			return stDone, true
 		}
 		st.locks[k]++
+		if st.par != nil {
+			st.setLockOwner(k, st.par.cur+1)
+			e.parProgress(st)
+		}
 		st.events = append(st.events, Event{name: "lock", s: "lock " + e.lockName(st, p)})
 		return ret(nil), true
 	case "(*sync.Mutex).Unlock", "(*sync.RWMutex).Unlock", "(*sync.RWMutex).RUnlock":
@@ -100,6 +109,9 @@ func (e *Engine) intrinsic(st *State, f *Frame, fn *ssa.Function, args []Value, 
 			return stDone, true
 		}
 		st.locks[k]--
+		if st.par != nil {
+			e.parProgress(st)
+		}
 		st.events = append(st.events, Event{name: "unlock", s: "unlock " + e.lockName(st, p)})
 		return ret(nil), true
 	case "(*sync.Mutex).TryLock":
